@@ -8,6 +8,7 @@ def run(ck):
     n = 1500 if ck.quick else 40000
     corr = [T.gen_case(ck.rng, "x") for _ in range(n)]
     K.correspondence(ck, bindir, model, corr, "xml tokenizer")
+    K.reference_leg(ck, model, corr)
     inputs = K.gen_inputs(ck, 900 if ck.quick else 30000, "x")
     r = ck.rng
     # line breaks / NUL next to references, in attribute values, doctypes, comments
